@@ -600,6 +600,25 @@ def jobs_for(prop, tier, seed):
                 continue
             add(p)
     elif prop == "C15":
+        # the dense small grid of the property: every input length 0..6 (and 13) x thread setting x chunk setting
+        shapes_ = ["", "m", "f", "o", "l", "mf"]
+        srcs_ = ["vec", "iter", "iterx", "range", "slice", "deque"]
+        i_ = 0
+        for ln in (0, 1, 2, 3, 4, 5, 6, 13):
+            for nt_ in (None, 0, 2, 3, 7, 17):
+                for cs_ in (None, ("cs", 0), ("cs", 1), ("cs", 2), ("cs", 5), ("cs", 64),
+                            ("csmin", 1), ("csmin", 2), ("csmin", 5), ("csmin", 64)):
+                    if tier == "quick" and (i_ % 2 == 1) and ln not in (0, 1):
+                        i_ += 1
+                        continue
+                    src = srcs_[i_ % len(srcs_)]
+                    sh = shapes_[(i_ // 3) % len(shapes_)]
+                    if len(sh) > SRC_MAXLEN[src] or (src in ("slice", "range") and len(sh) > 1):
+                        sh = sh[:1]
+                    p = gen_prog(rng, src=src, shape=sh, n=ln, nt=nt_, cs=cs_)
+                    p["term"] = any_term(rng, src, shape_of(p))
+                    add(norm(p), "free" if i_ % 3 else "rand")
+                    i_ += 1
         hold_jobs(rng, tier, [lambda r, s_, sh: any_term(r, s_, sh)], add)
         big_find_jobs(rng, tier, add)
         slow_source_jobs(rng, tier, [lambda r, s_, sh: any_term(r, s_, sh)], add)
